@@ -439,6 +439,10 @@ def merged_results(spec, layout, states, k):
       merged = runner.merge_states(copy.deepcopy(states), strict_states_cnt=strict)
       res = runner.get_result(merged)
       results.append((f'{label}:strict={strict}', res))
+      # The states as a one-shot iterable (how a driver streams worker states).
+      merged = runner.merge_states((s for s in copy.deepcopy(states)),
+                                   strict_states_cnt=strict)
+      results.append((f'{label}:strict={strict}:generator', runner.get_result(merged)))
     targets = [(f'{label}:chained', runner)]
     if label == 'aggregate':
       targets += [(f'transform:{r.name}', r) for r in runner._runners]  # pylint: disable=protected-access
